@@ -603,6 +603,9 @@ def export_scripts(ctx, cfgs, label):
 
 
 # ----------------------------------------------------------------------------- harness runs
+ENCODED = {}        # json(file description) -> path of the file's bytes, once racrreplay has built it in this run
+
+
 def run_harness(ctx, binp, job, scripts, name, timeout=3000, env=None):
     d = ctx.subdir("jobs")
     sp = os.path.join(d, name + ".ndjson")
@@ -610,9 +613,10 @@ def run_harness(ctx, binp, job, scripts, name, timeout=3000, env=None):
         for s in scripts:
             f.write(json.dumps(s, separators=(",", ":")) + "\n")
     job = dict(job)
-    if scripts:         # build only the files these scripts run on
+    if scripts:         # only the files these scripts run on; their bytes as built once at the start of the run
         used = {x["f"] for x in scripts}
-        job["files"] = [f for f in job["files"] if f["id"] in used]
+        job["files"] = [dict(f, encoded_path=ENCODED[json.dumps(f, sort_keys=True)]) if json.dumps(f, sort_keys=True) in ENCODED else f
+                        for f in job["files"] if f["id"] in used]
     job["scripts_path"] = sp
     jp = os.path.join(d, name + ".job.json")
     op = os.path.join(d, name + ".out.json")
@@ -952,6 +956,8 @@ def run(ctx, only_replay=None):
     if info["crash"]:
         raise ToolingError("racrreplay could not build the RAC files:\n" + info["stderr"])
     finfo = info["files"]
+    for d in fdescs.values():
+        ENCODED[json.dumps(d, sort_keys=True)] = finfo[d["id"]]["path"]
     # built files: valid (independent walker + Trace_RacFormat.tla) and equal to their description
     shape = validate_files(ctx, fut_walk.result(), list(fdescs.values()), finfo, pool)
     bounds, fgeo = {}, {}
@@ -1233,7 +1239,7 @@ def run(ctx, only_replay=None):
             return k
         # (the search for an interleaving grows steeply with the number of works and workers)
         cand = [s for c in (2, 4) for s in chosen[c] if completes(s) and all(x[3] == 2 for x in s["h"])
-                and len(bounds[s["f"]]) <= 1000 and (thorough or works(s) <= 40)]
+                and len(bounds[s["f"]]) <= 1000 and (thorough or works(s) <= 12)]
         rng.shuffle(cand)
         tdir = ctx.subdir("traces")
         if thorough:
